@@ -187,8 +187,9 @@ def run_job(job):
     # ---- (c) operand kinds on either side of infix and reflected operators ------------------------
     kinds = ['int', 'npint', 'npfloat', 'list', 'tuple', 'callable', 'callable2', 'float']
     for ci in range(n):
-        opname = rng.choice(job['infix'])
-        f = INFIX[opname]
+        # infix operators, and the operators that only exist as methods through the algebra-level call alg.<op>(left, right)
+        opname = rng.choice(job['infix'] + ['lc', 'rc', 'sp', 'cp', 'acp'])
+        f = INFIX.get(opname) or (lambda a_, b_, o_=opname: getattr(alg, o_)(a_, b_))
         side = rng.choice(['left', 'right'])
         kind = rng.choice(kinds)
         eid0 = f"{job['prefix']}:r{ci}"
